@@ -4,6 +4,6 @@ Import ListNotations.
 From Verif Require Import ValidateModel ParamTablesDefs ParamTablesGen ParamTablesConsts.
 Local Open Scope N_scope.
 
-Definition row_diag : list (N * N * N * bool * bool) :=
+Definition row_diag : list (N * N * N * bool * bool * bool) :=
   firstn 40 (flat_map (fun ch => flat_map (prow_diag g_limtab) ch) g_rows).
 Eval vm_compute in (failing_consts, row_diag).
